@@ -476,7 +476,7 @@ def run(ctx, syn_forms=None, volume=1.0):
     opclass = operation_classes(ctx)
     check_generated(ctx)
     weak = any(k in ("proof", "translator") for k, _, _ in ctx.broken)
-    n = int((400 if ctx.tier == "quick" else 4000) * volume * (3 if weak else 1))
+    n = int((400 if ctx.tier == "quick" else 2500) * volume * (3 if weak else 1))
     tally = Tally()
     for isa in ("x86", "aarch64"):
         # ---- the database the implementation loads (private copy; on x86 with the synthetic entries of synthisa)
